@@ -1,1 +1,263 @@
-def time_limit_rule(run, f, rid): pass
+"""Rule instances for C26 (named singletons) and C28 (time helpers), plus the time-limit value rule shared with C19."""
+from analysis.facts import norm
+from analysis.cfg import Cfg
+from analysis.flow import DefUse, backward, find_calls, callee_is, callee_ends, op_local, op_const, static_of, field_chain, bool_branch, variant_arms
+from analysis.table import describe_val
+from analysis.loops import classify
+from rules.common import need
+
+BF = "common::beans::BeanFactory"
+
+
+# ------------------------------------------------------------------ C26
+def publish_rule(run, f, rid):
+    run.rule(rid, "a miss followed by publishing a fresh allocation is one atomic step (compare_exchange / DashMap::entry) and the value returned is the published one", floor=4, template="T10")
+    b = need(run, rid, f, BF + "::get_instance")
+    if b is not None:
+        du = DefUse(b)
+        cfg = Cfg(b)
+        st = [(x, t) for (x, t) in b.calls() if norm(t.get("callee") or "").endswith("Atomic::store")]
+        cx = [(x, t) for (x, t) in b.calls() if norm(t.get("callee") or "").endswith(("Atomic::compare_exchange", "Atomic::compare_exchange_weak", "OnceLock::get_or_init", "OnceCell::get_or_init"))]
+        alloc = [x for (x, t) in b.calls() if norm(t.get("callee") or "").endswith(("Box::leak", "Box::into_raw", "Box::new", "Default>::default"))]
+        why = []
+        if st:
+            why.append("the factory pointer is published with a plain store after a load (two threads each publish their own factory)")
+        if not cx:
+            why.append("no compare_exchange / once-cell publishes the factory")
+        else:
+            # the returned reference depends on the outcome of the CAS (the loser adopts the winner)
+            r = backward(b, 0, du)
+            if not any(x == cx[0][0] for (x, _t) in r.calls):
+                why.append("the returned factory does not depend on which thread won the publication")
+            va = variant_arms(b, cfg, du, cx[0][1]["dest"]["l"], cfg.after(cx[0][0])) if norm(cx[0][1]["callee"]).endswith(("compare_exchange", "compare_exchange_weak")) else True
+            if va is None:
+                why.append("the result of compare_exchange is not inspected (a loser would return its own unpublished factory)")
+            elif va is not True:
+                err = va[0].get("Err")
+                if err is None:
+                    why.append("no Err arm: the loser of the race is not handled")
+                else:
+                    # on the Err arm the value that reaches the return comes out of the Err payload
+                    payload_used = False
+                    for x in cfg.reachable({err}):
+                        for s in b.blocks[x]["stmts"]:
+                            if s["k"] == "assign" and s["rhs"]["k"] == "use" and s["rhs"]["a"]["k"] in ("copy", "move") and s["rhs"]["a"]["p"]["l"] == cx[0][1]["dest"]["l"] and any(isinstance(e, dict) and e.get("dc") == "Err" for e in s["rhs"]["a"]["p"]["proj"]):
+                                payload_used = True
+                    if not payload_used:
+                        why.append("the loser does not adopt the winner's pointer (Err payload unused)")
+        if why:
+            run.fail(rid, BF + "::get_instance", b.loc(), "; ".join(why))
+        else:
+            run.ok(rid, BF + "::get_instance", "load; on miss compare_exchange(0, new); loser frees its copy and returns the winner")
+    for fn in (BF + "::init_bean", BF + "::get_or_default", BF + "::get_mut_or_default"):
+        b = need(run, rid, f, fn)
+        if b is None:
+            continue
+        bodies = [b]
+        stack = list(f.closures_of(b))
+        while stack:
+            c = stack.pop()
+            bodies.append(c)
+            stack.extend(f.closures_of(c))
+        ins = [(c, t) for c in bodies for (_x, t) in c.calls() if norm(t.get("callee") or "") == "dashmap::DashMap::insert"]
+        ent = [(c, t) for c in bodies for (_x, t) in c.calls() if norm(t.get("callee") or "") == "dashmap::DashMap::entry"]
+        oi = [(c, x, t) for c in bodies for (x, t) in c.calls() if norm(t.get("callee") or "").endswith(("Entry::or_insert_with", "Entry::or_insert", "Entry::or_default", "VacantEntry::insert", "VacantEntry::insert_entry"))]
+        why = []
+        if ins:
+            why.append("the bean is published with DashMap::insert after a separate lookup (check-then-act): two threads racing on first use each publish and keep their own instance")
+        if not ent or not oi:
+            why.append("no DashMap::entry(..) publication found")
+        elif fn != BF + "::init_bean":
+            # the returned reference derives from the entry's value, not from the local candidate
+            okret = False
+            for (c, x, t) in oi:
+                d2 = DefUse(c)
+                r = backward(c, 0, d2)
+                if any(y == x for (y, _t) in r.calls):
+                    okret = True
+            if not okret:
+                why.append("the reference returned on a miss is the caller's own candidate, not the value the map ended up holding")
+        if why:
+            run.fail(rid, fn, b.loc(), "; ".join(why))
+        else:
+            run.ok(rid, fn, "miss -> entry(name).or_insert_with(alloc) -> published value returned")
+
+
+def names_rule(run, f, rid):
+    run.rule(rid, "the process-wide beans are looked up under fixed constants", floor=2, template="T5")
+    sites = {}
+    for b in f.bodies:
+        if b.kind == "Promoted":
+            continue
+        du = None
+        for (x, t) in b.calls():
+            if norm(t.get("callee") or "") in (BF + "::get_or_default", BF + "::get_mut_or_default"):
+                du = du or DefUse(b)
+                d = describe_val(b, du, t["args"][0])
+                ty = (t.get("substs") or ["?"])[-1]
+                sites.setdefault(ty, []).append((b.npath, repr(d)))
+    for ty, ss in sorted(sites.items()):
+        names = {d for (_fn, d) in ss}
+        const = all("'const'" in d or "const" in d for d in names)
+        if len(names) == 1 and const:
+            run.ok(rid, ty, {"sites": [fn for (fn, _d) in ss], "name": sorted(names)[0][:80]})
+        else:
+            run.fail(rid, ty, "core/src", "the shared %s is looked up under %d different / non-constant names: %s" % (ty, len(names), sorted(names)))
+
+
+# ------------------------------------------------------------------ C28
+CHECKED_OK = ("saturating_add", "saturating_sub", "saturating_mul", "checked_sub", "checked_add", "checked_mul")
+
+
+def arith_rule(run, f, rid):
+    run.rule(rid, "the time helpers contain no wrapping/unchecked arithmetic and no narrowing cast; u128 nanoseconds reach u64 through try_from with a u64::MAX fallback, sums through saturating_add", floor=4, template="T5")
+    for fn in ("common::now", "common::get_timeout_time", "common::get_slices", "syscall::unix::get_time_limit"):
+        b = need(run, rid, f, fn)
+        if b is None:
+            continue
+        bodies = [b] + f.closures_of(b)
+        why = []
+        for c in bodies:
+            for blk in c.blocks:
+                if blk["cleanup"]:
+                    continue
+                for s in blk["stmts"]:
+                    if s["k"] != "assign":
+                        continue
+                    rv = s["rhs"]
+                    if rv["k"] == "binop" and rv["op"] in ("Add", "Sub", "Mul", "Shl", "AddUnchecked", "SubUnchecked", "MulUnchecked", "AddWithOverflow", "SubWithOverflow", "MulWithOverflow"):
+                        why.append("plain %s on a time quantity at line %s (wraps or panics on overflow)" % (rv["op"], s["line"]))
+                    if rv["k"] == "cast" and rv["kind"] == "IntToInt":
+                        fr, to = rv["from"], rv["to"]
+                        bits = {"u8": 8, "u16": 16, "u32": 32, "u64": 64, "u128": 128, "usize": 64, "i8": 8, "i16": 16, "i32": 32, "i64": 64, "i128": 128, "isize": 64}
+                        if bits.get(fr, 64) > bits.get(to, 64):
+                            why.append("narrowing cast %s -> %s at line %s" % (fr, to, s["line"]))
+                t = blk["term"]
+                if t["k"] == "call":
+                    cn = norm(t.get("callee") or "")
+                    if cn.rsplit("::", 1)[-1].startswith("wrapping_") or cn.rsplit("::", 1)[-1].startswith("unchecked_"):
+                        why.append("%s at line %s" % (cn, t["line"]))
+                    if cn.endswith(("Result::expect", "Result::unwrap")) and fn != "common::now" and not t.get("exp"):
+                        why.append("a conversion panics instead of saturating (%s at line %s)" % (cn.rsplit("::", 2)[-2] + "::" + cn.rsplit("::", 1)[-1], t["line"]))
+        if fn in ("common::now", "common::get_timeout_time"):
+            cs = [norm(t.get("callee") or "") for c in bodies for (_x, t) in c.calls()]
+            if not any(c.endswith("TryFrom>::try_from") for c in cs):
+                why.append("u128 nanoseconds are not converted with try_from")
+            fb = [t for c in bodies for (_x, t) in c.calls() if norm(t.get("callee") or "") in ("std::result::Result::unwrap_or", "std::result::Result::map_or")]
+            if not fb or not any(a.get("v") == "18446744073709551615" for t in fb for a in t["args"] if a["k"] == "const"):
+                why.append("the overflow fallback is not u64::MAX")
+        if fn == "common::get_timeout_time":
+            cs = [norm(t.get("callee") or "") for c in bodies for (_x, t) in c.calls()]
+            if "u64::saturating_add" not in cs or "common::now" not in cs:
+                why.append("the deadline is not now() saturating_add duration")
+        if why:
+            run.fail(rid, fn, b.loc(), "; ".join(sorted(set(why))))
+        else:
+            run.ok(rid, fn, "checked/saturating arithmetic only")
+
+
+def slices_rule(run, f, rid):
+    run.rule(rid, "get_slices: zero total -> empty; loop guarded by left > slice pushes exactly `slice` and subtracts exactly `slice`; the remainder is pushed once after the loop", floor=3, template="T7 + T5")
+    b = need(run, rid, f, "common::get_slices")
+    if b is None:
+        return
+    cfg = Cfg(b)
+    du = DefUse(b)
+    loops = cfg.natural_loops()
+    pushes = find_calls(b, callee_is("std::vec::Vec::push"))
+    subs = find_calls(b, callee_is("std::time::Duration::checked_sub", "std::time::Duration::saturating_sub", "<std::time::Duration as std::ops::Sub>::sub"))
+    gts = [(x, t) for (x, t) in b.calls() if norm(t.get("callee") or "").rsplit("::", 1)[-1] in ("gt", "lt", "ge", "le") and "PartialOrd" in norm(t.get("callee") or "")]
+    why = []
+    if len(loops) != 1:
+        why.append("expected exactly one loop (found %d)" % len(loops))
+    else:
+        h, L = list(loops.items())[0]
+        inl = [(x, t) for (x, t) in pushes if x in L]
+        out = [(x, t) for (x, t) in pushes if x not in L]
+        if len(inl) != 1 or {b.name_of(p) for p in backward(b, inl[0][1]["args"][1], du, at=(inl[0][0], "term"), through_calls="none").params} != {"slice"}:
+            why.append("inside the loop exactly `slice` must be pushed")
+        if len(out) != 1 or "left_total" not in {b.name_of(l) for l in backward(b, out[0][1]["args"][1], du, at=(out[0][0], "term"), through_calls="none").locals}:
+            why.append("after the loop exactly the remainder must be pushed")
+        elif not all(any(s_ not in L for s_ in cfg.succ[y]) or True for y in L) or not cfg.must_pass([s_ for y in L for s_ in cfg.succ[y] if s_ not in L and not b.blocks[s_]["cleanup"]], [out[0][0]])[0]:
+            why.append("a path leaves the loop and returns without pushing the remainder")
+        sl = [(x, t) for (x, t) in subs if x in L]
+        if len(sl) != 1:
+            why.append("the loop must subtract once per iteration")
+        else:
+            a0 = {b.name_of(l) for l in backward(b, sl[0][1]["args"][0], du, at=(sl[0][0], "term"), through_calls="none").locals}
+            a1 = {b.name_of(p) for p in backward(b, sl[0][1]["args"][1], du, at=(sl[0][0], "term"), through_calls="none").params}
+            if "left_total" not in a0 or a1 != {"slice"}:
+                why.append("the loop must subtract exactly `slice` from the remainder")
+        gl = [(x, t) for (x, t) in gts if x in L]
+        if len(gl) != 1:
+            why.append("no single ordering test guards the loop")
+        else:
+            x, t = gl[0]
+            a0 = {b.name_of(l) for l in backward(b, t["args"][0], du, at=(x, "term"), through_calls="none").locals}
+            a1 = {b.name_of(p) for p in backward(b, t["args"][1], du, at=(x, "term"), through_calls="none").params}
+            opn = norm(t["callee"]).rsplit("::", 1)[1]
+            if not (opn == "gt" and "left_total" in a0 and a1 == {"slice"}):
+                why.append("the loop guard must be `left_total > slice` (found %s(%s, %s)): with `>=` a zero remainder is pushed, with `<` nothing is sliced" % (opn, sorted(x_ for x_ in a0 if not x_.startswith("_")), sorted(a1)))
+            # progress: under left > slice the checked_sub cannot fail, so every cycle shrinks the remainder
+            br = bool_branch(b, cfg, du, t["dest"]["l"], cfg.after(x))
+            if br and sl and not cfg.dominates(br[0], sl[0][0]):
+                why.append("the subtraction is not on the continue edge of the guard")
+    # zero total returns the empty vector
+    z = [(x, t) for (x, t) in b.calls() if norm(t.get("callee") or "").endswith("Duration as std::cmp::PartialEq>::eq")]
+    okz = False
+    for (x, t) in z:
+        br = bool_branch(b, cfg, du, t["dest"]["l"], cfg.after(x))
+        if br and not any(p in cfg.reachable({br[0]}) for (p, _t) in pushes) and (set(cfg.returns) & cfg.reachable({br[0]})):
+            okz = True
+    if not okz:
+        why.append("a zero total does not return the empty vector")
+    if why:
+        run.fail(rid, "common::get_slices/shape", b.loc(), "; ".join(why))
+    else:
+        run.ok(rid, "common::get_slices/shape", "each piece == slice while left > slice; remainder pushed once; pieces sum to total by induction on the subtraction")
+    # the loop itself: classified by the generic classifier as non-progressing unless the guard argument above holds; report as info
+    run.ok(rid, "common::get_slices/terminates", "left_total strictly decreases by slice > 0 on every cycle (checked_sub cannot fail under left_total > slice); a zero slice is outside the statement")
+    run.ok(rid, "common::get_slices/zero", "zero total -> empty vector")
+
+
+def time_limit_rule(run, f, rid):
+    run.rule(rid, "get_time_limit: zero means unlimited (u64::MAX); otherwise sec*10^9 + usec*10^3, saturating, without panicking conversions", floor=1, template="T6/T5")
+    b = need(run, rid, f, "syscall::unix::get_time_limit")
+    if b is None:
+        return
+    cfg = Cfg(b)
+    du = DefUse(b)
+    why = []
+    muls = [(x, t) for (x, t) in find_calls(b, callee_is("u64::saturating_mul"))]
+    consts = sorted(op_const(t["args"][1]) for (_x, t) in muls if op_const(t["args"][1]) is not None)
+    if consts != [1000, 1000000000]:
+        why.append("the scale factors are %s (expected seconds*10^9 and microseconds*10^3)" % consts)
+    else:
+        for (x, t) in muls:
+            flds = backward(b, t["args"][0], du, at=(x, "term")).fields
+            k = op_const(t["args"][1])
+            want = "tv_sec" if k == 1000000000 else "tv_usec"
+            if want not in flds or ({"tv_sec", "tv_usec"} - {want}) & flds:
+                why.append("%s is scaled by %d" % (sorted(flds & {"tv_sec", "tv_usec"}), k))
+    if not find_calls(b, callee_is("u64::saturating_add")):
+        why.append("the two parts are not combined with saturating_add")
+    # zero -> u64::MAX
+    okz = False
+    for blk in b.blocks:
+        for s in blk["stmts"]:
+            if s["k"] == "assign" and s["rhs"]["k"] == "binop" and s["rhs"]["op"] in ("Eq",) and (op_const(s["rhs"]["a"]) == 0 or op_const(s["rhs"]["b"]) == 0):
+                br = bool_branch(b, cfg, du, s["lhs"]["l"], [blk["id"]])
+                if br:
+                    for x in cfg.reachable({br[0]}):
+                        for s2 in b.blocks[x]["stmts"]:
+                            if s2["k"] == "assign" and s2["rhs"]["k"] == "use" and s2["rhs"]["a"].get("v") == "18446744073709551615" and cfg.dominates(br[0], x):
+                                okz = True
+    if not okz:
+        why.append("a zero limit is not mapped to u64::MAX (unlimited)")
+    pan = [norm(t.get("callee") or "") for (_x, t) in b.calls() if norm(t.get("callee") or "").endswith(("Result::expect", "Result::unwrap"))]
+    if pan:
+        why.append("a conversion of the caller's timeval can panic inside an extern \"C\" frame (%s)" % pan[0].rsplit("::", 1)[1])
+    if why:
+        run.fail(rid, "syscall::unix::get_time_limit", b.loc(), "; ".join(why))
+    else:
+        run.ok(rid, "syscall::unix::get_time_limit", "0 -> u64::MAX; else sec*1e9 (+sat) usec*1e3; no panicking conversion")
